@@ -9,6 +9,6 @@ CONSTANTS
   Cnt <- CntThorough
   NCnt <- NCntThorough
   Obs <- ObsEmit
-INVARIANTS TypeOK QueriesInRange CmpLaw SpliceLaw SubLaw ShapeLaw
+INVARIANTS TypeOK QueriesInRange CmpLaw SpliceLaw SubLaw HugeLaw ShapeLaw
 PROPERTY Independence
 CHECK_DEADLOCK FALSE
